@@ -15,6 +15,10 @@ func c02Tasks(tier string) []Task {
 			}
 		}
 	}
+	// long Base-256 runs: around the one-/two-byte length field switch (249/250) and above 500
+	for _, a := range [][4]int64{{9, 0, 0, 0}, {9, 1, 0, 0}, {9, 1, 1, 0}, {9, 1, 2, 0}, {10, 0, 0, 0}, {10, 1, 0, 0}, {10, 1, 1, 0}} {
+		ts = append(ts, Task{Pkg: dm, Func: "VerifC02HighLevel", Args: a[:], Timeout: 300, Note: "Base-256 run of 248 / 504 characters + free character + tail"})
+	}
 	if tier == "thorough" {
 		ts = append(ts, Task{Pkg: dm, Func: "VerifC02HighLevel", Args: ints(0, 2, 0, 0), Timeout: 600, MaxPaths: 400000})
 		ts = append(ts, Task{Pkg: dm, Func: "VerifC02HighLevel", Args: ints(1, 2, 0, 0), Timeout: 600, MaxPaths: 400000})
